@@ -1815,17 +1815,27 @@ pub(crate) mod convert {
             deps: &'a mut FilterDependencies,
         ) -> ConvertResult<Self> {
             let mut entries = read_unit.entries_raw(None)?;
-            let abbrev = entries
-                .read_abbreviation()?
-                .ok_or(read::Error::MissingUnitDie)?;
-            entries.skip_attributes(abbrev.attributes())?;
-            Ok(FilterUnit {
+            let mut root = FilterUnitEntry::null(read_unit);
+            if !entries.read_entry(&mut root.read_entry)? {
+                return Err(read::Error::MissingUnitDie.into());
+            }
+            Self::filter_attributes(&mut root)?;
+            let mut unit = FilterUnit {
                 read_unit,
                 read_skeleton_unit,
                 entries,
                 parents: Vec::new(),
                 deps,
-            })
+            };
+            // The root DIE is always converted, so the DIEs that it references are required.
+            let mut root_deps = Vec::new();
+            for attr in &root.attrs {
+                unit.add_attribute_refs(&mut root_deps, attr.value())?;
+            }
+            for offset in root_deps {
+                unit.deps.require_entry(offset);
+            }
+            Ok(unit)
         }
 
         /// Return a null DIE for use with [`FilterUnit::read_entry`].
